@@ -72,8 +72,13 @@ class C19(F.PropCheck):
     # wrap-around effect.  All boot values of one case therefore share the phase of the reference boot (boot = 1 mod 10^6);
     # the scenario itself is padded so that the chosen interval straddles the wrap.
     PHASE = (W32 - 1) % 1000000          # true-time phase (mod 1 s) at which the counter wraps when boot = 1 (mod 10^6)
+    # second reference run: same phase as boot = 1, no wrap inside any scenario, but the counter is already above 200 ms at
+    # init.  Runs with a wrap are compared with THIS run; boot = 1 vs REF2 isolates what depends only on "counter below
+    # 200 ms at init" (known finding rs-report-grid-anchor: rs_cfg->last_comm_time starts at 0).
+    REF2 = 1000001
+    GRID_TAG = '[class=rs-report-grid-anchor]' 
     def wrap_boots(self, rng, marks, t_end, k, primary):
-        boots = []
+        boots = [self.REF2]
         def snap(w):
             w = max(w, 100000)
             q = (w - self.PHASE + 500000) // 1000000
@@ -201,26 +206,65 @@ class C19(F.PropCheck):
             elif o[0] == 'RUNCRASH': cur['crash'] = True
             else: cur['lines'].append(self.canon(o, cur['boot']))
         return res
+    def describe(self, ref, r):
+        i = 0
+        while i < len(r['lines']) and i < len(ref['lines']) and r['lines'][i] == ref['lines'][i]: i += 1
+        la = ref['lines'][i] if i < len(ref['lines']) else None; lb = r['lines'][i] if i < len(r['lines']) else None
+        kinds = {x[0] for x in (la, lb) if x}
+        if 'RESTART' in kinds: what = 'restart time'
+        elif 'GPIO' in kinds: what = 'output switching time'
+        elif kinds & {'CONNECT', 'DISCONNECT'}: what = 'connection handling'
+        else: what = 'frames sent'
+        w = (W32 - r['boot']) % W32
+        return ('%s depends on the boot value of the counter: trace relative to boot differs between boot=%d and boot=%d (counter wraps at t=%d us): line %d is [%s] vs [%s]' %
+                (what, ref['boot'], r['boot'], w, i, F.short(la) if la else 'end of trace', F.short(lb) if lb else 'end of trace'))
+    @staticmethod
+    def without_shutter_reports(lines, nsh):
+        """drops the VALUE_CHANGED frames (call 100) of shutter channels 0..nsh-1 and the rr numbering of the other frames"""
+        res = []
+        for (k, a, d) in lines:
+            if k == 'WIRE' and len(a) >= 3:
+                if a[1] == 100 and len(d) >= 1 and d[0] < nsh: continue
+                res.append((k, (a[0], a[1]), d))
+            else: res.append((k, tuple(a), d))
+        return res
     def monitor_dev(self, case, outs):
-        rs = [r for r in self.runs(outs) if not r['zero'] and not r['crash']]
+        allruns = self.runs(outs)
+        rs = [r for r in allruns if not r['zero'] and not r['crash']]
         if len(rs) < 2: return []
-        ref = rs[0]; v = []
+        nsh = case.evs[0][1][1] if len(case.evs[0][1]) > 1 else 0
+        ref1 = rs[0]; v = []
+        ref2 = next((r for r in rs[1:] if r['boot'] == self.REF2), None)
+        if ref2 is None:
+            # no second reference (hand-written case): everything is compared with the first run
+            for r in rs[1:]:
+                if r['lines'] != ref1['lines']: v.append(self.describe(ref1, r)); break
+            return v
+        # runs with a wrap (or a large offset) against the reference whose counter is already past 200 ms at init
         for r in rs[1:]:
-            if r['lines'] != ref['lines']:
-                i = 0
-                while i < len(r['lines']) and i < len(ref['lines']) and r['lines'][i] == ref['lines'][i]: i += 1
-                a = F.short(ref['lines'][i]) if i < len(ref['lines']) else 'end of trace'
-                b = F.short(r['lines'][i]) if i < len(r['lines']) else 'end of trace'
-                w = (W32 - r['boot']) % W32
-                la = ref['lines'][i] if i < len(ref['lines']) else None; lb = r['lines'][i] if i < len(r['lines']) else None
-                kinds = {x[0] for x in (la, lb) if x}
-                if 'RESTART' in kinds: what = 'restart time'
-                elif 'GPIO' in kinds: what = 'output switching time'
-                elif kinds & {'CONNECT', 'DISCONNECT'}: what = 'connection handling'
-                else: what = 'frames sent'
-                v.append('%s depends on the boot value of the counter: trace relative to boot differs between boot=%d and boot=%d (counter wraps at t=%d us): line %d is [%s] vs [%s]' %
-                         (what, ref['boot'], r['boot'], w, i, a, b))
-                break
+            if r is ref2: continue
+            if r['lines'] != ref2['lines']: v.append(self.describe(ref2, r)); break
+        # boot = 1 against that reference: two runs without any wrap
+        if ref1['lines'] != ref2['lines']:
+            msg = self.describe(ref1, ref2)
+            below1 = ref1['boot'] + 10000 < 200000; below2 = ref2['boot'] + 10000 < 200000
+            if below1 != below2 and nsh > 0 and self.without_shutter_reports(ref1['lines'], nsh) == self.without_shutter_reports(ref2['lines'], nsh):
+                # known-finding class: NOT returned as an alarm (the framework's shrinker keeps "any alarm", it would
+                # shrink a genuine boot-dependence into this one); handed to the verdict logic by extra_quick()
+                self._grid_hits.setdefault(case.id, (case, msg + ' ' + self.GRID_TAG))
+            else: v.append(msg)
         return v
+    _grid_hits = {}
+    def extra_quick(self, ctx):
+        for cid, (case, msg) in list(self._grid_hits.items()):
+            if cid != 's': ctx['alarms'].append((case, msg))
+        self._grid_hits.clear()
+        ctx['extra']['known_class_rs_report_grid_anchor_cases'] = sum(1 for (c, m) in ctx['alarms'] if self.GRID_TAG in m)
+
+    def finding_key(self, case, what):
+        """rs-report-grid-anchor: two runs WITHOUT a wrap-around, one whose counter was below 200 ms at init and one whose
+        counter was not, whose traces are identical once the position reports (VALUE_CHANGED, call 100) of the shutter
+        channels are removed (rr numbering of the remaining frames ignored).  Anything else stays a violation."""
+        return 'rs-report-grid-anchor' if self.GRID_TAG in what else None
 
 CHECK = C19()
